@@ -18,6 +18,9 @@ pub(crate) const CRC: crc::Crc<u32> = crc::Crc::<u32>::new(&CUSTOM_ALG);
 
 /// This check a "full" slice (containing data AND crc)
 pub(crate) fn assert_slice_crc(buf: &[u8]) -> Result<()> {
+    if buf.len() < 4 {
+        return Err(format_error!("Block is too small to contain a checksum"));
+    }
     let data_size = buf.len() - 4;
     let slice = &buf[..data_size];
     let mut digest = CRC.digest();
